@@ -8,6 +8,7 @@ import (
 	"encoding/json"
 	"fmt"
 	"sort"
+	"sync"
 	"time"
 
 	"github.com/streamingfast/bstream"
@@ -74,6 +75,7 @@ func hubRun(in *hubInput) (*hubObs, string) {
 
 	obs := &hubObs{}
 	handlerCh := make(chan bstream.Handler, 1)
+	var livesMu sync.Mutex // lives is appended to by the hub's Run goroutine
 	var lives []*idleSource
 	var cur *hubLive
 	lsf := func(h bstream.Handler) bstream.Source {
@@ -82,7 +84,9 @@ func hubRun(in *hubInput) (*hubObs, string) {
 		default:
 		}
 		l := &idleSource{shutter.New()}
+		livesMu.Lock()
 		lives = append(lives, l)
+		livesMu.Unlock()
 		return l
 	}
 	obsf := bstream.SourceFromNumFactory(func(start uint64, h bstream.Handler) bstream.Source {
@@ -107,8 +111,11 @@ func hubRun(in *hubInput) (*hubObs, string) {
 	}
 	defer func() {
 		fh.Shutdown(nil)
-		for i := 0; i < len(lives) && i < 4; i++ {
-			lives[i].Shutdown(nil)
+		livesMu.Lock()
+		ls := append([]*idleSource(nil), lives...)
+		livesMu.Unlock()
+		for i := 0; i < len(ls) && i < 4; i++ {
+			ls[i].Shutdown(nil)
 		}
 	}()
 
